@@ -107,6 +107,9 @@ def _apply_impl(m, op):
     if k == "rename_cells":
         owner.cells[op["c"]].rename(op["new"])
         return None
+    if k == "copy_cells":
+        owner.cells[op["c"]].copy(resolve(m, op["to"]), op["new"])
+        return None
     if k == "new_space":
         bases = [resolve(m, b) for b in op.get("bases", [])]
         owner.new_space(op["n"], bases=bases or None, formula=op.get("formula"))
@@ -252,6 +255,17 @@ def apply_ref(rm, op):
                 sp.cells[op["new"]] = c
             else:
                 sp.cells[n] = c
+        return
+    if k == "copy_cells":
+        # a copy carries the formula and the assigned values (not the computed ones); it is created cached
+        definer, src = rm.cells_of(op["sp"])[op["c"]]
+        c = src.copy()
+        c.cached = True
+        c.inputs = dict(src.inputs)
+        if c.src.lstrip().startswith("def"):
+            import re
+            c.src = re.sub(r"def\s+" + op["c"] + r"\b", "def " + op["new"], c.src, count=1)
+        rm.space(op["to"]).cells[op["new"]] = c
         return
     if k == "new_space":
         path = (op["sp"] + "." if op.get("sp") else "") + op["n"]
@@ -421,6 +435,8 @@ def op_to_python(op):
         return "del %s.%s" % (sp, op["c"])
     if k == "rename_cells":
         return "%s.%s.rename(%r)" % (sp, op["c"], op["new"])
+    if k == "copy_cells":
+        return "%s.%s.copy(%s, %r)" % (sp, op["c"], _pypath(op["to"]), op["new"])
     if k == "new_space":
         return "%s.new_space(%r, bases=[%s], formula=%r)" % (
             sp, op["n"], ", ".join(_pypath(b) for b in op.get("bases", [])), op.get("formula"))
